@@ -346,4 +346,29 @@ def r_idioms(ctx):
     repo_idioms(ctx, "C18.R6", ('http_server',))
 
 
-RULES = [("C18.R1", r1), ("C18.R2", r2), ("C18.R3", r3), ("C18.R4", r4), ("C18.R5", r5), ("C18.R6", r_idioms)]
+RFC6455_OPCODES = {"Text": 0x1, "Binary": 0x2, "Close": 0x8, "Ping": 0x9, "Pong": 0xA}       # RFC 6455 section 5.2 / 11.8
+
+
+def r7(ctx):
+    """the opcode numbers are the protocol: 'encoded as RFC 6455 prescribes' fixes them (section 5.2), and a library that
+    agrees with itself on swapped numbers still mis-reports every frame of a conforming peer"""
+    ci = ctx.repo.cls("http_server:WebSocketOpCode")
+    got = {}
+    for name in RFC6455_OPCODES:
+        v = ctx.folder.class_attr(ci, name)
+        got[name] = getattr(v, "value", v)
+    for name, want in RFC6455_OPCODES.items():
+        ctx.check(got.get(name) == want, "C18.R7", ci, "opcode %s == 0x%X (RFC 6455)" % (name, want), witness=repr(got.get(name)))
+    # the non-standard members must not collide with a standard number nor fit the 4-bit field of a real frame
+    others = {}
+    for st in ci.node.body:
+        if isinstance(st, ast.Assign) and isinstance(st.targets[0], ast.Name) and st.targets[0].id not in RFC6455_OPCODES:
+            v = ctx.folder.fold(st.value, ci.module)
+            if isinstance(v, int):
+                others[st.targets[0].id] = v
+    ctx.check(all(v > 0xF for v in others.values()), "C18.R7", ci, "non-standard opcodes lie outside the 4-bit wire range", witness=others)
+
+
+EXPLANATION = EXPLANATION + " (R7) the opcode constants are the RFC 6455 numbers (Text 1, Binary 2, Close 8, Ping 9, Pong 10); library-private opcodes lie outside the 4-bit wire range."
+
+RULES = [("C18.R1", r1), ("C18.R2", r2), ("C18.R3", r3), ("C18.R4", r4), ("C18.R5", r5), ("C18.R6", r_idioms), ("C18.R7", r7)]
